@@ -336,6 +336,15 @@ func c14History(c *ev.Ctx) {
 		return true
 	}
 
+	// the object a tree is loaded into is constructed with the tree's own node size or with
+	// another one (the file writer always constructs it with 4096, whatever the file holds):
+	// what counts after loading is the node size found in the file
+	loaderSize := func() uint32 {
+		if r.Bool() {
+			return cs.NodeSize
+		}
+		return []uint32{4096, 512, 128, 0, 8192}[r.Intn(5)]
+	}
 	collisionMutations := 0
 	nextID := uint64(r.Intn(1000) + 1)
 	// half of the histories are observed sparsely: the monitor's own searches and record
@@ -483,7 +492,7 @@ func c14History(c *ev.Ctx) {
 						return
 					}
 				}
-				nb := structures.NewWritableBTreeV2(cs.NodeSize)
+				nb := structures.NewWritableBTreeV2(loaderSize())
 				if err := nb.LoadFromFile(backing, backingAddr, sb); err != nil {
 					fail("persist:load-after-writeat-failed:"+tag(), err.Error())
 					return
@@ -517,7 +526,7 @@ func c14History(c *ev.Ctx) {
 				fail("persist:write-failed:"+tag(), err.Error())
 				return
 			}
-			nb := structures.NewWritableBTreeV2(cs.NodeSize)
+			nb := structures.NewWritableBTreeV2(loaderSize())
 			if err := nb.LoadFromFile(mf, addr, sb); err != nil {
 				fail("persist:load-failed:"+tag(), err.Error())
 				return
@@ -553,7 +562,7 @@ func c14History(c *ev.Ctx) {
 					fail("persist:writeat-failed:"+tag(), err.Error())
 					return
 				}
-				nb2 := structures.NewWritableBTreeV2(cs.NodeSize)
+				nb2 := structures.NewWritableBTreeV2(loaderSize())
 				if err := nb2.LoadFromFile(mf, addr, sb); err != nil {
 					fail("persist:load-after-writeat-failed:"+tag(), err.Error())
 					return
